@@ -224,8 +224,8 @@ static void module_case(uint64_t N, uint64_t a_size, uint64_t dft_size, uint64_t
   uint64_t* dft = gb_alloc(&gd, dft_limbs * N * 32, 32, 0, 4096);
   __int128* big = inplace ? (__int128*)dft : gb_alloc(&gb, res_size * N * 16, 16, 16 * (rep % 4), 4096);
   uint8_t* tmp = gb_alloc(&gt, vec_znx_idft_tmp_bytes(mod), 8, 8 * ((rep + 2) % 8), 4096);
-  gb_prefill(&gd, (int)rep, 1);
-  if (!inplace) gb_prefill(&gb, (int)rep + 1, 2);
+  gb_prefill(&gd, 1 + (int)((rep + a_size + res_size) % 3), 1);  // never all-zero: stale content must be visible
+  if (!inplace) gb_prefill(&gb, 1 + (int)((rep + dft_size) % 3), 2);
   gb_prefill(&gt, 2, 0);
   snap_t sa;
   zvec_snap(&sa, &A);
@@ -275,10 +275,10 @@ void run_C03(void) {
       for (unsigned rep = 0; rep < reps; rep++) transform_case(n, fam, (int)((rep + fam) & 1), rep);
     for (unsigned rep = 0; rep < (th ? 12u : 2u); rep++) evalmap_case(n, (int)(rep & 1), rep);
   }
-  // module level, all N, size/stride box on small N
+  // module level, all N (N = 1 included: the NTT120 module exists there), size/stride box on small N
   unsigned ctr = 0;
-  for (size_t ni = 0; ni < N_ALL_N; ni++) {
-    const uint64_t N = ALL_N[ni];
+  for (size_t ni = 0; ni <= N_ALL_N; ni++) {
+    const uint64_t N = ni < N_ALL_N ? ALL_N[ni] : 1;
     const uint64_t smax = N <= 64 ? 4 : (N <= 4096 ? 2 : 1);
     for (uint64_t as = 0; as <= smax; as++)
       for (uint64_t ds = 0; ds <= smax; ds++)
